@@ -217,6 +217,11 @@ pub struct RunOut {
     pub answers: Vec<EAnswer>,
     /// what `Observe` goals logged, in order
     pub observed: Vec<(u32, T)>,
+    /// user-state snapshots taken by the same `Observe` goals
+    pub observed_user: Vec<crate::builder::UserSnap>,
+    /// invariant violations logged by `Probe` goals anywhere in the search
+    pub probe_log: Vec<String>,
+    pub probes_run: u64,
     /// value of the quanta clock when each answer was returned
     pub quanta_at: Vec<u64>,
     pub end: End,
@@ -226,6 +231,9 @@ pub struct RunOut {
 /// Run `p` once from a fresh query, taking at most `max_answers`, under `cfg`.
 pub fn run_program(p: &Program, cfg: &SimCfg, max_answers: usize, record: bool) -> RunOut {
     crate::builder::OBSERVED.with(|o| o.borrow_mut().clear());
+    crate::builder::OBSERVED_USER.with(|o| o.borrow_mut().clear());
+    crate::builder::PROBE_LOG.with(|o| o.borrow_mut().clear());
+    crate::builder::PROBES_RUN.with(|o| o.set(0));
     let handle = Handle::install(cfg, record);
     let h2 = handle.clone();
     let mut answers = vec![];
@@ -256,9 +264,15 @@ pub fn run_program(p: &Program, cfg: &SimCfg, max_answers: usize, record: bool) 
     };
     let stats = handle.finish();
     let observed = crate::builder::OBSERVED.with(|o| std::mem::take(&mut *o.borrow_mut()));
+    let observed_user = crate::builder::OBSERVED_USER.with(|o| std::mem::take(&mut *o.borrow_mut()));
+    let probe_log = crate::builder::PROBE_LOG.with(|o| std::mem::take(&mut *o.borrow_mut()));
+    let probes_run = crate::builder::PROBES_RUN.with(|o| o.get());
     RunOut {
         answers,
         observed,
+        observed_user,
+        probe_log,
+        probes_run,
         quanta_at,
         end,
         stats,
